@@ -31,13 +31,15 @@ func CloneModule(src *Module) *Module {
 		dst.EntryPoints[i].Function.Expressions = cloneExpressions(src.EntryPoints[i].Function.Expressions)
 		dst.EntryPoints[i].Function.Body = cloneBlock(src.EntryPoints[i].Function.Body)
 		clipFunction(&dst.EntryPoints[i].Function)
+		cloneEntryPointInfo(&dst.EntryPoints[i])
 	}
 	dst.TypeAliasNames = dst.TypeAliasNames[:len(dst.TypeAliasNames):len(dst.TypeAliasNames)]
 	dst.TypeUseOrder = dst.TypeUseOrder[:len(dst.TypeUseOrder):len(dst.TypeUseOrder)]
 	return dst
 }
 
-// clipFunction removes the spare capacity of the slices a cloned function may
+// clipFunction gives a cloned function its own argument list and result record
+// and removes the spare capacity of the slices it may
 // still share with its source (CloneModuleForOverrides copies LocalVars and
 // ExpressionTypes only when they are non-empty, and an empty slice can still
 // have capacity): a pass appending to them must get a private array instead of
@@ -45,7 +47,36 @@ func CloneModule(src *Module) *Module {
 func clipFunction(f *Function) {
 	f.LocalVars = f.LocalVars[:len(f.LocalVars):len(f.LocalVars)]
 	f.ExpressionTypes = f.ExpressionTypes[:len(f.ExpressionTypes):len(f.ExpressionTypes)]
-	f.Arguments = f.Arguments[:len(f.Arguments):len(f.Arguments)]
+	// Arguments and Result carry type handles that CompactTypes / ReorderTypes
+	// renumber in place: give the clone its own.
+	if f.Arguments != nil {
+		args := make([]FunctionArgument, len(f.Arguments))
+		copy(args, f.Arguments)
+		f.Arguments = args
+	}
+	if f.Result != nil {
+		res := *f.Result
+		f.Result = &res
+	}
+}
+
+// cloneEntryPointInfo duplicates the stage-specific records an entry point
+// keeps behind pointers (the passes renumber handles stored in them).
+func cloneEntryPointInfo(ep *EntryPoint) {
+	if ep.EarlyDepthTest != nil {
+		v := *ep.EarlyDepthTest
+		ep.EarlyDepthTest = &v
+	}
+	if ep.MeshInfo != nil {
+		v := *ep.MeshInfo
+		v.MaxVerticesOverride = cloneHandlePtr(v.MaxVerticesOverride)
+		v.MaxPrimitivesOverride = cloneHandlePtr(v.MaxPrimitivesOverride)
+		ep.MeshInfo = &v
+	}
+	if ep.TaskPayload != nil {
+		v := *ep.TaskPayload
+		ep.TaskPayload = &v
+	}
 }
 
 // cloneHandlePtr returns a fresh copy of an optional expression handle.
